@@ -5,7 +5,6 @@ CONSTANTS
   CAP1 = 3
   CAP2S = 2
   CAP2L = 3
-  U32MAX = 2000000000
   BYTES = {51, 54, 48, 58, 44, 65, 66, 33}
   MAXLEN = 7
 CHECK_DEADLOCK FALSE
